@@ -515,3 +515,60 @@ func VH18c_repeat() {
 	verif.Reach("repeat-checked")
 	sock.Close()
 }
+
+// VH12g_write_fault: on a socket of any pattern that can send, the connection a
+// message is written to fails that write (raw reset error or ErrClosed) while
+// its read side stays healthy. The library gives that connection up -- closes
+// it, once -- keeps working, accepts a new connection and sends later messages
+// there; the send call itself returns (success or an error, never a hang).
+func VH12g_write_fault() {
+	protos := []string{"pair", "xpair", "pair1", "xpair1", "push", "xpush", "pub", "xpub", "bus", "xbus", "star", "xstar",
+		"surveyor", "xsurveyor", "req", "xreq", "rep", "xrep", "respondent", "xrespondent"}
+	proto := protos[verif.Choice("proto", len(protos))]
+	lab := "C12/" + proto + "/write-fault"
+	sock := vp.New(proto)
+	side := vt.Listen(sock, "a")
+	vt.ChooseErrors()
+	bad := side.Peer("bad")
+	bad.SendMode = vt.SendFail
+	prep := func(p *vt.Pipe) {
+		route = nil
+		switch proto {
+		case "rep", "respondent":
+			p.Deliver([]byte{0x80, 0, 0, 1, 'q'})
+			verif.Quiesce()
+			_, err := sock.RecvMsg()
+			verif.Assert(err == nil, lab+"/request")
+		case "xrep", "xrespondent":
+			learnRoute(proto, sock, p)
+		}
+	}
+	prep(bad)
+	var serr error
+	g := verif.Go("send", func() { serr = sock.SendMsg(newMsg(proto)) })
+	verif.Quiesce()
+	if proto != "req" {
+		verif.Assert(g.Done(), lab+"/send-hangs-on-a-connection-whose-write-fails")
+	}
+	_ = serr
+	verif.Assert(bad.SendCalls >= 1, lab+"/message-never-handed-to-the-connection")
+	verif.Assert(bad.Closed, lab+"/connection-whose-write-failed-not-given-up")
+	verif.Assert(bad.SendCalls == 1, lab+"/dead-connection-offered-traffic-again")
+	good := side.Peer("good")
+	verif.Assert(!good.Closed, lab+"/new-connection-refused-after-a-write-fault")
+	if proto == "req" {
+		verif.Assert(g.Done(), lab+"/send-still-blocked-although-a-healthy-peer-connected")
+		verif.Assert(len(good.Sent) == 1, lab+"/request-not-re-sent-to-the-healthy-peer")
+	} else {
+		prep(good)
+		n := len(good.Sent)
+		var e2 error
+		g2 := verif.Go("send-2", func() { e2 = sock.SendMsg(newMsg(proto)) })
+		verif.Quiesce()
+		verif.Assert(g2.Done() && e2 == nil, lab+"/send-after-the-fault")
+		verif.Assert(len(good.Sent) == n+1, lab+"/later-message-not-sent-on-the-new-connection")
+	}
+	verif.Assert(bad.SendCalls == 1, lab+"/dead-connection-offered-traffic-again")
+	verif.Reach("write-fault-checked")
+	sock.Close()
+}
